@@ -97,8 +97,8 @@ func oracle(c Case) *ev.Verdict {
 			cl := "invalid-json"
 			return ev.V("example:"+cl, "Example() is not RFC 8259 JSON: %s\n%s", clip(string(r.ex), 300), tp)
 		}
-	case <-time.After(20 * time.Second):
-		return ev.V("example:no-result-in-bounded-time", "Example() did not return within 20 s\n%s", tp)
+	case <-time.After(180 * time.Second): // (generous: the machine may be busy; these projects take milliseconds)
+		return ev.V("example:no-result-in-bounded-time", "Example() did not return within 180 s\n%s", tp)
 	}
 	return nil
 }
